@@ -29,17 +29,7 @@ def _calls_method(node: ast.AST, names) -> bool:
     return False
 
 
-def cfg_root(n):
-    """The part of a CFG node's AST that is evaluated at that node."""
-    if n.ast is None or n.kind in ("with_exit", "except"):
-        return None
-    if n.kind == "iter":
-        return n.ast.iter
-    if n.kind == "with_enter":
-        return n.ast.context_expr
-    if n.kind == "stmt" and isinstance(n.ast, (ast.FunctionDef, ast.AsyncFunctionDef, ast.ClassDef)):
-        return None
-    return n.ast
+from sa.util import cfg_root   # noqa: E402  (re-exported for the other rule modules)
 
 
 class C08:
@@ -332,9 +322,23 @@ class C08:
                  "_storage_update implements (has id?, is trash?) -> delete / update / skip / create-and-record-id", expect_min=5)
         f = self.state.methods["storage_commit"]
         g = ctx.cfg(f)
-        loops = [n for n in g.nodes if n.kind == "iter" and any(isinstance(x, ast.Attribute) and x.attr == "_dirtyset" for x in ast.walk(n.ast.iter))]
+        # local aliases of the dirty set (e.g. `dirty = self._dirtyset`, tuple swaps)
+        aliases = set()
+        for n in ctx.own_nodes(f):
+            if isinstance(n, ast.Assign):
+                pairs = []
+                for t in n.targets:
+                    if isinstance(t, ast.Tuple) and isinstance(n.value, ast.Tuple) and len(t.elts) == len(n.value.elts):
+                        pairs += list(zip(t.elts, n.value.elts))
+                    else:
+                        pairs.append((t, n.value))
+                for t, v in pairs:
+                    if isinstance(t, ast.Name) and any(isinstance(x, ast.Attribute) and x.attr == "_dirtyset" for x in ast.walk(v)):
+                        aliases.add(t.id)
+        loops = [n for n in g.nodes if n.kind == "iter" and any((isinstance(x, ast.Attribute) and x.attr == "_dirtyset") or
+                                                                 (isinstance(x, ast.Name) and x.id in aliases) for x in ast.walk(n.ast.iter))]
         if len(loops) != 1:
-            raise AnalysisError("storage_commit: expected one loop over self._dirtyset, found %d" % len(loops))
+            raise AnalysisError("storage_commit: expected one loop over the dirty set, found %d" % len(loops))
         lp = loops[0]
         var = lp.ast.target.id if isinstance(lp.ast.target, ast.Name) else None
 
@@ -358,12 +362,17 @@ class C08:
         rep.check("C08.R5", "storage_commit|each-dirty-entry", ctx.line(f, lp.ast), p is None and var is not None,
                   "every iteration writes its entry", "an iteration of the commit loop can skip _storage_update(%s)" % var,
                   witness=describe_path(p) if p else None, func=f.qname)
-        in_loop = g.reach(body_starts, lambda n: is_clear(n), avoid=lambda n: n is lp, follow=NORMAL, include_src=True)
+        # entries leave the dirty set only after the whole pass: a write that raises mid-commit must leave the
+        # unwritten entries dirty for the retry
+        lid = lp.id
+        early = g.reach([g.entry.id], lambda n: is_clear(n), follow=lambda a, b, l: l != "exc" and not (a == lid and l == "F"))
         after = [b for (b, lab) in g.succ[lp.id] if lab == "F"]
         no_clear = g.reach(after, lambda n: n is g.exit, avoid=is_clear, follow=NORMAL, include_src=True)
-        rep.check("C08.R5", "storage_commit|clear-after-loop", f, in_loop is None and no_clear is None,
-                  "dirty set emptied after the loop, on every path",
-                  "dirty set is emptied inside the loop or not at all (inside: %s, skipped: %s)" % (in_loop is not None, no_clear is not None), func=f.qname)
+        rep.check("C08.R5", "storage_commit|clear-after-loop", f, early is None and no_clear is None,
+                  "dirty set emptied only after the loop completed, on every path",
+                  "the dirty set is emptied/rebound before every dirty entry was written (%s) or never (%s): a storage write that raises "
+                  "mid-commit loses the unwritten entries for the retry" % (early is not None, no_clear is not None),
+                  witness=describe_path(early) if early else None, func=f.qname)
         # four-case table
         su = self.state.methods["_storage_update"]
         ent = su.params()[1]
